@@ -272,7 +272,7 @@ def _run_sim(case, obs):
     tar, orc = _load(name)
     rng = random.Random(case["seed"])
     d = gen.scenario(rng, sched="scripted", kinds=("EVSE", "FR"), noise_p=0.0, nmax=4, sess_max=5, horizon=15,
-                     period=rng.choice([1, 5, 7.5, 15, 60]))
+                     period=rng.choice([1, 5, 7.5, 15, 60, 60, 1440, 1500, 2880]))
     year = rng.choice(_years())
     d["start"] = [year, rng.randint(1, 12), rng.randint(1, 28), rng.choice([0, 8, 12, 18, 21, 23]), rng.choice([0, 15, 30, 45])]
     if rng.random() < 0.4:
